@@ -34,8 +34,9 @@ func (k compKind) String() string { return [...]string{"OTHER", "BLOCK", "ALG", 
 type component struct {
 	kind  compKind
 	sigma string    // access path of the signed block this component was read from; "" for fresh values / constants
-	val   ssa.Value // the component value (unwrapped)
-	note  string
+	val      ssa.Value // the component value (unwrapped)
+	sigmaVal ssa.Value // the *pb.SignedBlock value the component was read from (nil for fresh values)
+	note     string
 }
 
 // concatNF flattens append(append(x, y...), z...) chains into their ordered parts.
@@ -135,14 +136,14 @@ func (p *Prog) algBuffer(v ssa.Value) (ssa.Value, bool) {
 func (p *Prog) classify(c ssa.Value) component {
 	c = unwrap(c)
 	if x, ok := loadOfField(c, "Block"); ok && isSignedBlockPtr(x) {
-		return component{kind: cBlock, sigma: p.D(x), val: c}
+		return component{kind: cBlock, sigma: p.D(x), val: c, sigmaVal: x}
 	}
 	if x, ok := loadOfField(c, "Signature"); ok && isSignedBlockPtr(x) {
-		return component{kind: cSig, sigma: p.D(x), val: c}
+		return component{kind: cSig, sigma: p.D(x), val: c, sigmaVal: x}
 	}
 	if pk, ok := loadOfField(c, "Key"); ok {
 		if x, ok2 := loadOfField(pk, "NextKey"); ok2 && isSignedBlockPtr(x) {
-			return component{kind: cKey, sigma: p.D(x), val: c}
+			return component{kind: cKey, sigma: p.D(x), val: c, sigmaVal: x}
 		}
 	}
 	if enc, ok := p.algBuffer(c); ok {
@@ -155,7 +156,7 @@ func (p *Prog) classify(c ssa.Value) component {
 				if u, isU := call.Call.Args[0].(*ssa.UnOp); isU && u.Op == token.MUL {
 					if pk, ok1 := loadOfField(u.X, "Algorithm"); ok1 {
 						if x, ok2 := loadOfField(pk, "NextKey"); ok2 && isSignedBlockPtr(x) {
-							return component{kind: cAlg, sigma: p.D(x), val: c}
+							return component{kind: cAlg, sigma: p.D(x), val: c, sigmaVal: x}
 						}
 					}
 				}
@@ -189,6 +190,34 @@ func (p *Prog) payloadOf(msg ssa.Value) payload {
 	var comps []component
 	for _, v := range concatNF(msg) {
 		comps = append(comps, p.classify(v))
+	}
+	// one level of helper inlining: the message is the result of a repository function that
+	// builds the payload from a *pb.SignedBlock parameter
+	if len(comps) == 1 && comps[0].kind == cOther {
+		if call, ok := unwrap(msg).(*ssa.Call); ok {
+			if f := call.Call.StaticCallee(); f != nil && f.Blocks != nil && p.isRepoFunc(f) {
+				rets := returnsOf(f)
+				if len(rets) == 1 && len(rets[0].Results) == 1 {
+					inner := p.payloadOf(retVal(rets[0], 0))
+					if inner.shape != "" && !inner.fresh {
+						// the signed block must be one of the helper's parameters
+						for i, pa := range f.Params {
+							if p.D(pa) == inner.sigma && i < len(call.Call.Args) {
+								arg := call.Call.Args[i]
+								for k := range inner.comps {
+									if inner.comps[k].sigma == inner.sigma {
+										inner.comps[k].sigma = p.D(arg)
+										inner.comps[k].sigmaVal = arg
+									}
+								}
+								inner.sigma = p.D(arg)
+								return inner
+							}
+						}
+					}
+				}
+			}
+		}
 	}
 	pl := payload{comps: comps}
 	kinds := ""
@@ -584,10 +613,8 @@ func (p *Prog) checkWalk(r *Reporter, fn *ssa.Function, n *ssa.Call) {
 	// sigma must be the range element
 	elemOK := false
 	for _, c := range v2.pl.comps {
-		if c.kind == cBlock {
-			if x, ok := loadOfField(c.val, "Block"); ok && rl.isElem(x) {
-				elemOK = true
-			}
+		if c.kind == cBlock && c.sigmaVal != nil && rl.isElem(c.sigmaVal) {
+			elemOK = true
 		}
 	}
 	// key: phi at the loop header: entry = Authority.NextKey.Key, back edge = elem.NextKey.Key
@@ -732,7 +759,7 @@ func (p *Prog) isLastBlock(fn *ssa.Function, pl payload, T string) (bool, string
 	var sb ssa.Value
 	for _, c := range pl.comps {
 		if c.kind == cBlock {
-			sb, _ = loadOfField(c.val, "Block")
+			sb = c.sigmaVal
 		}
 	}
 	ph, ok := sb.(*ssa.Phi)
